@@ -294,6 +294,10 @@ class FortranAST:
                     inc.scope_objs = added_entities
 
     def resolve_links(self, obj_tree, link_version):
+        # Type lookups are cached on first use, the type may since have been
+        # replaced by a new version of the file that declares it
+        for var in self.variable_list:
+            var.type_obj = None
         for inherit_obj in self.inherit_objs:
             inherit_obj.resolve_inherit(obj_tree, inherit_version=link_version)
         for linkable_obj in self.linkable_objs:
